@@ -636,6 +636,21 @@ Proof.
   split; [vm_compute; reflexivity|]. split; [vm_compute; reflexivity|]. vm_compute. reflexivity.
 Qed.
 
+
+(* script_fits_unlimited — "when the context's storage limits are not hit": if along the unlimited evaluation of
+   the script the occupancy never exceeds the capacities (script_fits, computed on the script alone), the limited
+   table IS the DWARF table (script_rows); otherwise rows_by_script_areas says where StackFull /
+   TooManyRegisterRules is reported. *)
+Theorem script_fits_unlimited : forall (c : CfaSpec.caps) (aa : bool) (asz init range : N) (cie : list cfi) (fde : list (N * cfi)),
+  script_fits c aa cie fde = true ->
+  script_rows_lim c aa asz init range cie fde = script_rows aa asz init range cie fde.
+Proof. exact CfaScriptProofs.script_fits_unlimited. Qed.
+Example script_fits_ex :
+  script_fits heap_caps false (c_insns cie_a) (f_insns (fde_a 4096)) = true /\
+  script_fits heap_caps false [Cfa 7 8; Offset 16 (-8); Offset 6 (-16)] [(0, RememberState); (4, RememberState); (8, RememberState)] = false /\
+  script_fits heap_caps false [Cfa 7 8; Offset 16 (-8); Offset 6 (-16)] [(0, RememberState); (4, RememberState)] = true.
+Proof. vm_compute. repeat split. Qed.
+
 (* pins *)
 Check factoring_exact. Check factoring_exact_code. Check advance_loc_forms. Check advance_loc_encodings.
 Check insn_write_read. Check fde_program_read. Check cie_program_read.
@@ -645,3 +660,4 @@ Check pointer_read_back. Check cie_header_read. Check fde_header_read. Check tab
 Check table_roundtrip_partial. Check insn_read_by_reader. Check entries_read_by_reader. Check rows_read_by_reader_partial.
 Check no_panic_write. Check unsupported_address_size_is_error. Check lsda_mismatch_is_error. Check no_panic_build.
 Check reader_insn_effect_is_meaning. Check rows_by_script_areas. Check rows_read_by_reader. Check table_rows_read_by_reader.
+Check script_fits_unlimited.
